@@ -629,7 +629,8 @@ func (x *fnCtx) havocMatching(st *State, prefix string) {
 
 // callSiteClauses evaluates at_call and only_calls clauses of the function under verification.
 func (x *fnCtx) callSiteClauses(st *State, fr *Frame, in ssa.Instruction, c *ssa.CallCommon, name string, fnv *Val, args []*Val) {
-	if !x.eng.cfg.Layers["contract"] {
+	contractLayer := x.eng.cfg.Layers["contract"]
+	if !contractLayer && (!x.lockLayer() || len(x.con.ClausesOf("conc_at_call")) == 0) {
 		return
 	}
 	site := x.ord(fr, in)
@@ -643,9 +644,22 @@ func (x *fnCtx) callSiteClauses(st *State, fr *Frame, in ssa.Instruction, c *ssa
 	if len(st.frames) > 0 {
 		fr = st.frames[0]
 	}
-	for _, cl := range x.con.ClausesOf("at_call") {
+	siteClauses := append(append([]*Clause{}, x.con.ClausesOf("at_call")...), x.con.ClausesOf("conc_at_call")...)
+	for _, cl := range siteClauses {
 		if !cl.appliesTo(x.eng.prop) || !matchCallee(cl.Arg, name) {
 			continue
+		}
+		// conc_at_call: the same clause form, generated as an obligation of the lock layer
+		// (concurrent pass), for what must hold at the call under any interleaving
+		vcKind, vcOrd := "at_call", cl.Ord
+		if cl.Kind == "at_call" && !contractLayer {
+			continue
+		}
+		if cl.Kind == "conc_at_call" {
+			if !x.lockLayer() {
+				continue
+			}
+			vcKind, vcOrd = "lockpost", 200+cl.Ord
 		}
 		x.hitAtCall(cl)
 		if cl.Loop != 0 && fr.isTop {
@@ -698,7 +712,7 @@ func (x *fnCtx) callSiteClauses(st *State, fr *Frame, in ssa.Instruction, c *ssa
 				names["$iarg"] = nameBind{v: a}
 				alts = append(alts, x.evalSpecBool(env, cl.Expr))
 			}
-			x.addVC(st, x.short, "at_call", cl.Ord, fmt.Sprintf("%s%d", siteFn, site), Or(alts...), fmt.Sprintf("at call of %s, some interface argument: %s", name, cl.Text), x.eng.posStr(in.Pos()))
+			x.addVC(st, x.short, vcKind, vcOrd, fmt.Sprintf("%s%d", siteFn, site), Or(alts...), fmt.Sprintf("at call of %s, some interface argument: %s", name, cl.Text), x.eng.posStr(in.Pos()))
 			continue
 		}
 		if strings.Contains(cl.Text, "$arg") {
@@ -709,15 +723,15 @@ func (x *fnCtx) callSiteClauses(st *State, fr *Frame, in ssa.Instruction, c *ssa
 				}
 				names["$arg"] = nameBind{v: a}
 				g := x.evalSpecBool(env, cl.Expr)
-				x.addVC(st, x.short, "at_call", cl.Ord, fmt.Sprintf("%s%d.arg%d", siteFn, site, i), g, fmt.Sprintf("at call of %s, string argument %d: %s", name, i, cl.Text), x.eng.posStr(in.Pos()))
+				x.addVC(st, x.short, vcKind, vcOrd, fmt.Sprintf("%s%d.arg%d", siteFn, site, i), g, fmt.Sprintf("at call of %s, string argument %d: %s", name, i, cl.Text), x.eng.posStr(in.Pos()))
 			}
 			continue
 		}
 		g := x.evalSpecBool(env, cl.Expr)
-		x.addVC(st, x.short, "at_call", cl.Ord, fmt.Sprintf("%s%d", siteFn, site), g, fmt.Sprintf("at call of %s: %s", name, cl.Text), x.eng.posStr(in.Pos()))
+		x.addVC(st, x.short, vcKind, vcOrd, fmt.Sprintf("%s%d", siteFn, site), g, fmt.Sprintf("at call of %s: %s", name, cl.Text), x.eng.posStr(in.Pos()))
 	}
 	for _, cl := range x.con.ClausesOf("only_calls") {
-		if !cl.appliesTo(x.eng.prop) {
+		if !cl.appliesTo(x.eng.prop) || !contractLayer {
 			continue
 		}
 		names := map[string]nameBind{}
